@@ -177,9 +177,10 @@ def check_load(rec, r, work):
         for j in range(n):
             want[pos[j]][synsets[j]['id']] = 0.0
         for j in r.sample(range(n), r.randint(1, n)):
-            val = r.choice([1.0, 2.5, 1915712.0, 0.25])
+            val = r.choice([1.0, 2.5, 1915712.0, 0.25, 8.5e-06, 1.2e+16, 3.0e-5])
             root = r.random() < 0.4
-            lines.append(f'{j + 1}{pos[j]} {val}' + (' ROOT' if root else ''))
+            text = r.choice(['%s' % val, '%.15g' % val, '%r' % val])      # WordNet::Similarity writes %.15g (exponents for tiny/huge values)
+            lines.append(f'{j + 1}{pos[j]} {text}' + (' ROOT' if root else ''))
             want[pos[j]][synsets[j]['id']] = val
             if root:
                 want[pos[j]][None] += val
